@@ -6,7 +6,7 @@
 From BS Require Import Model.Base Model.Regex Model.Num Model.ExprParser Model.Script Model.ScriptX Model.Lower
   Gen.Unicode Proofs.ScriptFacts Proofs.C06 Proofs.C10 Proofs.C10ws Proofs.C10wsExpr Proofs.C10wsIndent
   Proofs.ExprFuel Proofs.C10wsFull Proofs.RegexShiftG Proofs.C10wsIndent2 Proofs.C10wsReturn
-  Proofs.C10tokLex Proofs.C10tokSpaced Proofs.RegexTrail Proofs.C10tokTrail.
+  Proofs.C10tokLex Proofs.C10tokSpaced Proofs.RegexTrail Proofs.C10tokTrail Proofs.RegexTrail2.
 
 (* ---- LF versus CRLF: both texts have the same lines ---- *)
 Theorem C10_crlf : forall lines, lines <> [] -> Forall no_lf lines -> Forall (fun l => ends_cr l = false) lines ->
@@ -235,6 +235,39 @@ Proof.
   repeat split; vm_compute; reflexivity.
 Qed.
 
+(* ---- TRAILING white space and the STATEMENT regexes, engine level (round 5, Proofs/RegexTrail2.v).  For the fifteen
+   statement regexes that end with  X \s*$  after a literal non-space character X (stmt_tail_re: function begin / end, label,
+   include, include <..>, if / elif / else / endif, for / endfor, while / endwhile, break, continue) the ENGINE's answer on
+   line ++ ws is "no match" iff it is on line, and a match has the SAME capture table (which groups matched, where they start
+   and end), so every captured text is the same; only the end of the whole match moves.  Proved operationally (m_trail2:
+   Proofs/RegexTrail.v m_trail with "equal answers" weakened to "same captures"; ev_eol_tail: `\s*$` succeeds exactly on white
+   subjects), for any run of `\s` characters.  PARTIAL with respect to "classify n (line ++ ws) = classify n line": the three
+   other statement regexes are not covered — `(?P<expr>.+)$` (assignment) and `\S.*` (return expr) absorb the run, the name
+   group of jump is followed directly by `\s*$` — and assignment is tried FIRST by classify, so no classify theorem follows
+   yet (see C10_ws_tokens_partial). ---- *)
+Theorem C10_ws_statement_regex_trailing_partial : forall R line ws, stmt_tail_re R -> white ws ->
+  match rxm R line with
+  | MNo => rxm R (line ++ ws) = MNo
+  | MYes _ c => exists e', rxm R (line ++ ws) = MYes e' c /\ forall g, gtext (line ++ ws) c g = gtext line c g
+  | MFuel => False
+  end.
+Proof. exact stmt_regex_trail_groups. Qed.
+Print Assumptions C10_ws_statement_regex_trailing_partial.
+
+Example C10_ex_ws_statement_regex_trailing :
+  stmt_tail_re Gen.Regexes.R_SCRIPT_FOR_BEGIN /\ white (U " \000009") /\
+  (exists e c, rxm Gen.Regexes.R_SCRIPT_FOR_BEGIN (U "for v, i in arr :") = MYes e c /\
+               gtext (U "for v, i in arr :") c Gen.Regexes.R_SCRIPT_FOR_BEGIN__values = U "arr " /\
+               exists e', rxm Gen.Regexes.R_SCRIPT_FOR_BEGIN (U "for v, i in arr : \000009") = MYes e' c /\ e' = e + 2) /\
+  rxm Gen.Regexes.R_SCRIPT_LABEL (U "a b:") = MNo /\ rxm Gen.Regexes.R_SCRIPT_LABEL (U "a b: ") = MNo.
+Proof.
+  split; [constructor|].
+  split; [intros c I; vm_compute in I; repeat (destruct I as [<-|I]; [reflexivity|]); contradiction|].
+  split; [|split; vm_compute; reflexivity].
+  eexists. eexists. split; [vm_compute; reflexivity|]. split; [vm_compute; reflexivity|].
+  eexists. split; vm_compute; reflexivity.
+Qed.
+
 (* C10_ws_tokens_partial — the FULL clause "breaking a line at any point where a space is allowed / changing indentation or
    trailing whitespace yields the same statement" needs whitespace-insensitivity of EVERY statement regex and of the
    expression lexer at EVERY gap.  PROVED: the keyword-only statements and the bare `return` with any indentation and trailing whitespace
@@ -243,12 +276,13 @@ Qed.
    (C10_ws_indentation; C10_ws_indentation_partial is the earlier version without function-begin / jump / jumpif / return);
    round 5: white space BETWEEN the tokens of an expression — all token kinds, string / bracket atoms opaque, result EOk only
    (C10_ws_expression_tokens_partial, _iff_partial, C10_ws_spaced_symmetric); TRAILING white space of an expression, every
-   text, equality of results (C10_ws_expression_trailing, C10_ws_token_regex_trailing).
+   text, equality of results (C10_ws_expression_trailing, C10_ws_token_regex_trailing); trailing white space for fifteen
+   statement regexes at the engine level (C10_ws_statement_regex_trailing_partial).
    NOT proved (oracle only): trailing whitespace and inner gaps of the STATEMENT lines that carry an expression or a name
    (assignment, function, if/elif/while/for, label, jump/jumpif, return expr, include).  What is missing there is the
-   statement-regex layer only (the expression inside is covered by the two round-5 theorems): (1) the regexes that end with
-   `X \s*$` after a literal X (`:` `'` `>` `)` or a keyword) need the engine lemma m_trail generalised from "equal answers" to
-   "same captures, end moved by |ws|" for the `\s*$` tail; (2) `(?P<expr>.+)$` (assignment) and `\S.*` (return) absorb the
+   statement-regex layer only (the expression inside is covered by the two round-5 theorems): (1) the fifteen regexes that end
+   with `X \s*$` after a literal X are done at the ENGINE level (C10_ws_statement_regex_trailing_partial: same captures), but
+   classify tries the assignment regex first and the jump regex (name group directly before `\s*$`) is not of that shape; (2) `(?P<expr>.+)$` (assignment) and `\S.*` (return) absorb the
    run, so the engine does NOT run in lockstep there (more star iterations on the longer subject), and `x =` / `x =  ` shows
    that "assignment does not match" is not even preserved for a rejected line — the classify theorem has to go through the
    kinds; (3) a run containing LF must be excluded (`.` does not read it).  These stay checked metamorphically by the direct
